@@ -139,6 +139,9 @@ def plan(tier, seed):
         jobs.append({'space': 'R', 'shard': i, 'of': 16, 'tier': tier,
                      'weight': 2000})
     jobs.append({'space': 'EQ', 'tier': tier, 'weight': 100})
+    for first in 'AB':
+        jobs.append({'space': 'XT', 'first': first, 'tier': tier,
+                     'weight': 3000})
     for d in range(1, 10 if tier == 'quick' else 13):
         jobs.append({'space': 'DEEP', 'depth': d, 'tier': tier,
                      'weight': 30 * 2 ** d})
@@ -438,6 +441,51 @@ def run_R(cx, job):
                             str(rules), 'R')
                         break
     cx.acc.sample('R', src)
+
+
+def _leaf_classes(check):
+    if hasattr(check, 'rules'):
+        return tuple(x for r in check.rules for x in _leaf_classes(r))
+    if hasattr(check, 'rule'):
+        return _leaf_classes(check.rule)
+    return (type(check).__name__,)
+
+
+def run_XT(cx, job):
+    """Engine E3: the FIRST rules of a process are parsed by two threads at
+    once - the table of plug-in check kinds (http, https) is built lazily by
+    whoever parses first.  Each thread's tree must print, and be made of the
+    check classes, it gets when it parses alone; printing and re-parsing it
+    afterwards gives the same again."""
+    from mc import pairs
+    from oslo_policy import _checks
+    texts = {'A': 'role:a and not rule:q',
+             'B': 'https://h.test/%(h1)s or (role:b and http://h.test/x)'}
+
+    def parse(text):
+        tree = cx.parse(text)
+        again = cx.parse(str(tree))
+        return (str(tree), _leaf_classes(tree), str(again),
+                _leaf_classes(again))
+    expected = {n: parse(texts[n]) for n in 'AB'}
+    if 'HttpsCheck' not in expected['B'][1]:
+        raise core.HarnessError('the plug-in kinds are not installed')
+
+    def make_bodies():
+        _checks.extension_checks = None          # a process that just started
+        return {n: (lambda n=n: parse(texts[n])) for n in 'AB'}
+    try:
+        # one preemption at both tiers: an execution re-scans the entry
+        # points, two preemptions did not finish in half an hour
+        n_ex = pairs.explore(cx.acc, 'XT', 'first-parse', make_bodies,
+                             expected, 1,
+                             lambda n: 'rule %r' % (texts[n],),
+                             firsts=(job['first'],))
+    finally:
+        _checks.extension_checks = None
+        _checks.get_extensions()
+    cx.acc.add('xt_executions', n_ex)
+    cx.acc.sample('XT', texts)
 
 
 def run_DEEP(cx, job):
